@@ -922,6 +922,87 @@ def run_tx_case(case, ctx):
         # ---- history: the chromosome-level answers once more, AFTER every chunk-level accessor above was touched on the same objects ----
         for k, o in built.items():
             compare_answers(ctx, k, label, WA[mode][k], _answers(ctx, k, o, scan_wins if k == "cds" else ()), (cs, ce), mode, history="after-chunk-level")
+        # ---- the same window as a chunk declared on the MINUS strand of the chromosome --------------------------------------------
+        if widx % 3 == 1:
+            check_minus_chunk(ctx, label, ts, fs, genome, cs, ce, exons, strand, M if (coding and model_ok) else None, WA[mode], mode, scan_wins)
+
+
+def _minus_chunk_parent(genome, cs, ce):
+    from inscripta.biocantor.io.parser import seq_chunk_to_parent
+
+    return seq_chunk_to_parent(SM.revcomp(genome[cs:ce]), "chr1", cs, ce, strand=GG._strand("-"))
+
+
+def check_minus_chunk(ctx, label, ts, fs, genome, cs, ce, exons, strand, M, whole_answers, guidmode, scan_wins):
+    """A sequence chunk may be declared on the minus strand of its chromosome (seq_chunk_to_parent(strand=MINUS), sequence = reverse
+    complement of the window).  Chunk-relative coordinates are then mirrored, so everything is judged through strand-independent
+    observations: chromosome-level answers equal the whole-chromosome twin's; the chunk-relative location lifted back is the part of
+    the chromosome location inside the window (5'->3'); sequences equal the model's; chunk-relative codons lifted back are the
+    whole-chromosome codons fully inside the window; the chunk-relative blocks + frames, read by the frame model as a stand-alone CDS
+    in chunk coordinates and mirrored back, give exactly those codons."""
+    w = [cs, ce]
+    mp, e = ctx.call(_minus_chunk_parent, genome, cs, ce)
+    if e is not None:
+        _chk(ctx, "chunk.location", False, key=("minus-chunk", "parent-refused", type(e).__name__), label=label, window=w, exc=_exc(e))
+        return
+    ctx.bump("minus-strand-chunk-windows")
+    want_pos = inside(PM.positions(exons, strand), cs, ce)
+    for kind, mk in (("tx", lambda: GG.build_transcript(ts, mp, "chr1")), ("feature", lambda: GG.build_feature(fs, mp, "chr1"))):
+        o, e = ctx.call(mk)
+        if e is not None:
+            _chk(ctx, "chunk.location", False, key=("minus-chunk", kind, "constructor-raised", type(e).__name__), label=label, window=w, exc=_exc(e))
+            continue
+        compare_answers(ctx, kind, label, whole_answers[kind], _answers(ctx, kind, o, ()), (cs, ce), guidmode, history="minus-strand-chunk")
+        r, e = ctx.call(lambda: _lifted(o.chunk_relative_location))
+        _chk(ctx, "chunk.location", e is None and r == want_pos, key=("minus-chunk", kind, "lifted-positions"), label=label, window=w, got=r, want=want_pos, exc=_exc(e))
+        if want_pos:
+            r, e = ctx.call(lambda: str(o.get_spliced_sequence()))
+            want = SM.extract(want_pos, strand, genome)
+            _chk(ctx, "chunk.sequence", e is None and r == want, key=("minus-chunk", kind, "spliced"), label=label, window=w, got=r, want=want, exc=_exc(e))
+    if M is None:
+        return
+    # K18 (single block, start frame 1/2) and K13 (5' block shorter than its offset) regions are judged by the plus-strand-chunk legs
+    # and their classifiers only
+    if len(M.blocks) == 1 and M.f5 != 0:
+        ctx.bump("minus-chunk-skipped-k18-region")
+        return
+    want = M.codons_in(cs, ce)
+    wseq = M.seq(want)
+    in_chunk = inside(M.pos, cs, ce)
+    cds, e = ctx.call(_build_cds, ts, mp)
+    if e is not None:
+        _chk(ctx, "chunk.codons", False, key=("minus-chunk", "cds", "constructor-raised", type(e).__name__), label=label, window=w, exc=_exc(e))
+        return
+    compare_answers(ctx, "cds", label, whole_answers["cds"], _answers(ctx, "cds", cds, scan_wins), (cs, ce), guidmode, history="minus-strand-chunk")
+    res, e = ctx.call(lambda: [_lifted(c) for c in cds.chunk_relative_codon_locations])
+    if e is not None:
+        _chk(ctx, "chunk.codons", (not want) and _bc_refusal(e), key=("minus-chunk", "raised", type(e).__name__), label=label, window=w, exc=_exc(e), want=want)
+    else:
+        _chk(ctx, "chunk.codons", res == want, key=("minus-chunk", "lifted-codons"), label=label, window=w, got=res, want=want)
+    if want:
+        fresh, e = ctx.call(_build_cds, ts, mp)
+        r, e = ctx.call(lambda: str(fresh.extract_sequence())) if e is None else (None, e)
+        _chk(ctx, "chunk.cds-sequence", e is None and r == wseq, key=("minus-chunk", "extract_sequence"), label=label, window=w, got=r, want=wseq, exc=_exc(e))
+    if not in_chunk or not M.consistent:
+        return
+    fr, e = ctx.call(lambda: [f.value for f in cds.chunk_relative_frames])
+    cb, e2 = ctx.call(lambda: _blocks(cds.chunk_relative_location))
+    cst, e3 = ctx.call(lambda: cds.chunk_relative_location.strand.to_symbol())
+    if e or e2 or e3:
+        _chk(ctx, "chunk.frames", False, key=("minus-chunk", "raised", type(e or e2 or e3).__name__), label=label, window=w, exc=_exc(e or e2 or e3))
+        return
+    need = (M.f5 - M.pos.index(in_chunk[0])) % 3
+    if len(fr) != len(cb):
+        _chk(ctx, "chunk.frames", False, key=("minus-chunk", "frames-length"), label=label, window=w, frames=fr, blocks=cb)
+        return
+    first_len = len(FM.exons_5to3(cb, cst)[0]) if cb else 0
+    whole_first = len(FM.exons_5to3(M.blocks, M.strand)[0])
+    if first_len < need or whole_first < M.f5:
+        ctx.bump("frames-skipped-k13")
+        return
+    got_c = [[ce - 1 - q for q in c] for c in FM.codons(cb, cst, fr)]
+    _chk(ctx, "chunk.frames", got_c == want, key=("minus-chunk", "chunk_relative_frames", "describe-the-in-chunk-codons"), label=label, window=w,
+         frames=fr, chunk_blocks=cb, chunk_strand=cst, got=got_c, want=want, need_offset=need)
 
 
 # ----------------------------------------------------------------------------------------------------------------
